@@ -421,6 +421,10 @@ func unmarshalCertificateV1(b []byte, publicKey []byte) (*certificateV1, error) 
 		return nil, fmt.Errorf("encoded Subnets should be in pairs, an odd number was found")
 	}
 
+	if len(rc.Signature) == 0 {
+		return nil, ErrEmptySignature
+	}
+
 	nc := certificateV1{
 		details: detailsV1{
 			name:           rc.Details.Name,
